@@ -11,8 +11,9 @@ Open Scope nat_scope.
 Theorem C01_spec_exec : forall W D q row, In row (answers_exec W D q) <-> answer W D q row.
 Proof. exact answers_exec_correct. Qed.
 
-(* nothing that satisfies the conditions is ever missing: for EVERY query of the modelled vocabulary *)
-Theorem C01_complete : forall W D q row, answer W D q row -> In row (run W D q).
+(* nothing that satisfies the conditions is ever missing: for EVERY quantifier-free query of the modelled vocabulary
+   (any nesting of and_/or_/not_, Union under negation included) *)
+Theorem C01_complete : forall W D q row, qfree_opt (q_cond q) = true -> answer W D q row -> In row (run W D q).
 Proof. exact run_complete. Qed.
 
 (* nothing that violates the conditions is ever returned, and every row is one consistent assignment:
@@ -33,14 +34,14 @@ Theorem C01_sound_complete : forall W D q,
 Proof. exact run_exact. Qed.
 
 (* the condition-level invariant behind both: results are a cylinder cover of the assignment space *)
-Theorem C01_cover_complete : forall W D c b rho,
+Theorem C01_cover_complete : forall W D c, qfree c = true -> forall b rho,
   extends rho b -> (forall x, In x (cond_vars c) -> In (rho x) (D x)) ->
-  exists b', In (b', negb (sat W rho c)) (eval W D c b) /\ extends rho b'.
+  exists b', In (b', negb (sat W D rho c)) (eval W D c b) /\ extends rho b'.
 Proof. exact eval_complete. Qed.
 
 Theorem C01_cover_sound : forall W D c pol b b',
   snd_ok pol c = true -> In (b', negb pol) (eval W D c b) ->
-  forall rho, extends rho b' -> sat W rho c = pol.
+  forall rho, extends rho b' -> sat W D rho c = pol.
 Proof. exact eval_sound. Qed.
 
 (* ---- outside the fragment the full statement is false of the faithful model: concrete witnesses ---- *)
